@@ -344,6 +344,12 @@ def Unpruned : MState → Prop
   | .live fc => fc.pa.offset = 0
   | _ => True
 
+instance (st : MState) : Decidable (Unpruned st) := by
+  cases st with
+  | none => exact isTrue trivial
+  | dead => exact isTrue trivial
+  | live fc => exact inferInstanceAs (Decidable (fc.pa.offset = 0))
+
 theorem finish_inv {α : Type} (r : Out FC α) (f : α → Ans) (hs : Safe r) :
     Unpruned (finish r f).1 → MInv (finish r f).1 := by
   unfold finish
